@@ -165,7 +165,8 @@ def backupSt (s : St) (db : DB) (dest : String) : St :=
   let d := dirOf s db
   let old := (s.world.get dest).getD DirSt.empty
   let data := d.data.map (fun (x : Nat × FileSt) => (x.1, { x.2 with synced := x.2.bytes.size }))
-  { s with world := s.world.set dest { old with data := data, hint := d.hint } }
+  let w := if mergeDirName dest = db.dir then s.world else s.world.remove (mergeDirName dest)
+  { s with world := w.set dest { old with data := data, hint := d.hint } }
 
 theorem backup_eq_st {s : St} {db : DB} (hs : s.db = some db) (dest : String) :
     backup s dest = (backupSt s db dest, .ok) := by
@@ -210,7 +211,12 @@ theorem Step_backup (s : St) (dest : String) : Step s (backup s dest).1 := by
       rw [getFile_map_sync, hf]; rfl
   · refine Adv.same_dir rfl ?_ rfl
     unfold backupSt
-    exact get_set_ne _ _ _ _ (fun e => hne e.symm)
+    simp only []
+    rw [get_set_ne _ _ _ _ (fun e => hne e.symm)]
+    split
+    · rfl
+    · rename_i hm
+      exact get_remove_ne _ _ _ (fun e => hm e.symm)
 
 /-! ## histories: plain operations, batch operations, `Merge` runs and `Backup`s, interleaved -/
 
